@@ -14,6 +14,10 @@ EDIT = GL.Profile(max_surfs=12, shapes=['standard', 'standard', 'even_asphere', 
                   allow_tilt=True, keep_edges=False, sym_coef_from=0, max_field_deg=10.0, rho_min=1.5, steep_prob=0.1,
                   ap_types=['EPD', 'EPD', 'EPD', 'imageFNO', 'objectNA'])
 
+# histories centred on solves: EPD aperture, no tilts/decentres (the domain in which the solve clause is judged)
+SOLVE = GL.Profile(max_surfs=8, shapes=['standard', 'standard', 'even_asphere'], allow_tilt=False, keep_edges=False,
+                   sym_coef_from=0, max_field_deg=10.0, rho_min=1.5, steep_prob=0.0, ap_types=['EPD'])
+
 f = st.floats
 sel = st.integers(0, 1000)
 val_R = st.one_of(f(5.0, 500.0), f(-500.0, -5.0))
@@ -48,6 +52,20 @@ def op_strategy():
     return st.lists(st.one_of(ops + [solve, solve, upd, upd, pick]), min_size=4, max_size=30)
 
 
+def solve_history():
+    """two or three solves first, then edits (often in front of them) and update() calls"""
+    solve = st.fixed_dictionaries(dict(op=st.just('solve'), s=sel, h=f(-3.0, 3.0)))
+    upd = st.fixed_dictionaries(dict(op=st.just('update')))
+    edit = st.one_of(
+        st.fixed_dictionaries(dict(op=st.just('set_radius'), s=st.integers(0, 2), v=val_R)),
+        st.fixed_dictionaries(dict(op=st.just('set_index'), s=st.integers(0, 2), v=val_n)),
+        st.fixed_dictionaries(dict(op=st.just('set_thickness'), s=st.integers(0, 1), v=f(0.5, 20.0))),
+        st.fixed_dictionaries(dict(op=st.just('set_radius'), s=sel, v=val_R)),
+        st.fixed_dictionaries(dict(op=st.just('set_conic'), s=sel, v=val_k)))
+    return st.tuples(st.lists(solve, min_size=2, max_size=3), st.lists(st.one_of(edit, edit, upd, solve), min_size=1, max_size=8)
+                     ).map(lambda t: t[0] + t[1] + [dict(op='update')])
+
+
 def stop_ops():
     return st.lists(st.one_of(
         st.fixed_dictionaries(dict(op=st.just('insert'), s=sel, stop=st.booleans())),
@@ -79,7 +97,8 @@ class C01(Check):
     def strategy(self, tier):
         edit = st.fixed_dictionaries(dict(kind=st.just('edit'), spec=GL.lens_spec(EDIT), ops=op_strategy()))
         stop = st.fixed_dictionaries(dict(kind=st.just('stop'), spec=GL.lens_spec(EDIT, max_surfs=5), ops=stop_ops()))
-        return st.one_of(edit, edit, edit, edit, edit, edit, stop)
+        solves = st.fixed_dictionaries(dict(kind=st.just('edit'), spec=GL.lens_spec(SOLVE, min_surfs=3), ops=solve_history()))
+        return st.one_of(edit, edit, edit, edit, edit, solves, stop)
 
     def describe(self, case):
         s = case['spec']
